@@ -35,7 +35,8 @@ type vOpts struct {
 	ReadRepair bool  `json:"read_repair,omitempty"`
 	MCQ        int   `json:"mcq,omitempty"`
 	FastDetect bool  `json:"fast_detect,omitempty"`
-	Stepped    bool  `json:"stepped,omitempty"` // no periodic routing push / balancer / janitor / compaction: the harness invokes them as steps
+	NoJanitor  bool  `json:"no_janitor,omitempty"` // the periodic empty-fragment janitor is off: the harness runs the (single) janitor pass itself
+	Stepped    bool  `json:"stepped,omitempty"`    // no periodic routing push / balancer / janitor / compaction: the harness invokes them as steps
 	TTLms      int64 `json:"default_ttl_ms,omitempty"`
 	MaxKeys    int   `json:"max_keys,omitempty"`
 	MaxInuse   int   `json:"max_inuse,omitempty"`
@@ -129,6 +130,9 @@ func vConfig(o vOpts) *config.Config {
 	c.DMaps.NumEvictionWorkers = 1
 	c.DMaps.TriggerCompactionInterval = 150 * time.Millisecond
 	c.DMaps.CheckEmptyFragmentsInterval = 200 * time.Millisecond
+	if o.NoJanitor {
+		c.DMaps.CheckEmptyFragmentsInterval = time.Hour
+	}
 	if o.Stepped {
 		c.RoutingTablePushInterval = time.Hour
 		c.TriggerBalancerInterval = time.Hour
